@@ -198,6 +198,8 @@ def realise_lowlevel(ap: dict, name_vars: bool = True) -> Real:
                 vs = [spox.argument(ty[nd["ty"]])]
             elif k == "const":
                 vs = [op.const(np.float32(nid))]
+            elif k == "init":
+                vs = [_graph.initializer(np.array(nid, np.float32))]
             elif k == "neg":
                 vs = [op.neg(ins[0])]
             elif k == "add":
@@ -283,6 +285,8 @@ def realise_script(script: dict, name_vars: bool = True) -> Real:
                 ins = [box[r] for r in refs]
                 if kind == "const":
                     v, t = op.const(np.float32(len(box))), F
+                elif kind == "init":
+                    v, t = _graph.initializer(np.array(len(box), np.float32)), F
                 elif kind == "neg":
                     v, t = op.neg(ins[0]), F
                 elif kind == "add":
@@ -419,6 +423,16 @@ def trace_from_proto(ap: dict, model) -> list:
     return trace
 
 
+def drop_initializers(ap: dict, trace: list) -> list:
+    """Initializers are emitted as `GraphProto.initializer` entries, not as NodeProtos: the trace read
+    from the proto cannot order them, so they are left out of the trace comparison (their position
+    is still compared through `scope_of` / `scope_own` and judged by the oracle)."""
+    inits = {n for n, nd in enumerate(ap["nodes"]) if nd["k"] == "init"}
+    if not inits:
+        return trace
+    return [e for e in trace if not (e[0] == "emit" and e[1] in inits)]
+
+
 INTERNAL_FACETS = ("graph_topo", "args_of", "scope_of", "scope_own")
 
 
@@ -545,6 +559,9 @@ def proto_facts(model) -> dict:
                 args.setdefault(int(m.group(1)), []).append(path)
         for init in gp.initializer:
             defined.setdefault(init.name, path)
+            m = _VNAME.match(init.name)
+            if m:
+                emitted.setdefault(int(m.group(1)), []).append(path)
         for k, pn in enumerate(gp.node):
             for nm in pn.input:
                 if nm:
